@@ -1,0 +1,21 @@
+//go:build verif
+
+package spv
+
+import (
+	"github.com/keep-network/keep-core/pkg/bitcoin"
+	"github.com/keep-network/keep-core/pkg/maintainer/btcdiff"
+)
+
+// Verification hook (build tag verif): re-exports existing identifiers only.
+
+const VerifC32DifficultyEpochLength = difficultyEpochLength
+
+func VerifC32GetProofInfo(
+	transactionHash bitcoin.Hash,
+	btcChain bitcoin.Chain,
+	spvChain Chain,
+	btcDiffChain btcdiff.Chain,
+) (bool, uint, uint, error) {
+	return getProofInfo(transactionHash, btcChain, spvChain, btcDiffChain)
+}
